@@ -103,7 +103,9 @@ def run(ctx):
     ctx.rule("M1", "who-may-call recv = the two readers")
     ctx.rule("M2", "who-may-touch the read buffer = the two readers (+ resets where the socket is replaced)")
     ctx.rule("W1", "who-may-call sendall = the sender")
-    w1(ctx, R)
+    # "the server in turn only ever receives well-formed commands": the encoding rules of C08 (W1-W4, W6, W7), without its verb table
+    from .c08 import wire_rules
+    wire_rules(ctx, R, verbs=False)
 
     # the reply readers, the reply decoders and the status/error parser are this property's mechanism too ("reply reader and buffer",
     # "listing / script / capability decoding"): a desynchronisation introduced there shows up only later in a session
@@ -116,6 +118,9 @@ def run(ctx):
     reader_rules(ctx, R)
     decoder_rules(ctx, R)
     q34(ctx, R)
+    # the emulated rename is a sequence of exchanges whose outcome must equal the server's state (no overwrite, no loss)
+    from .c14 import rename_rules
+    rename_rules(ctx, R)
 
     # ---- K4 ---------------------------------------------------------------------
     ctx.rule("K4", "line reader: every raise that interprets a line is dominated by the removal of that line from the buffer")
